@@ -221,8 +221,10 @@ def main():
                   assumptions=['agreement of model and implementation outside the explored cases is assumed',
                                'the compiled driver executes the model definitions faithfully'],
                   wall_s=round(time.time() - t0, 2), violations=violations)
-        os.makedirs(os.path.join(VERIF, 'evidence'), exist_ok=True)
-        with open(os.path.join(VERIF, 'evidence', prop + '.json'), 'w') as f:
+        # (evaluations of seeded changes against a scratch checkout write their evidence elsewhere: VERIF_EVIDENCE_DIR)
+        evdir = os.environ.get('VERIF_EVIDENCE_DIR') or os.path.join(VERIF, 'evidence')
+        os.makedirs(evdir, exist_ok=True)
+        with open(os.path.join(evdir, prop + '.json'), 'w') as f:
             json.dump(ev, f, indent=1, default=str)
         print('%s tier=%s seed=%d cases=%d nontrivial=%d validated=%d mismatches=%d oracle_failures=%d theorems=%d/%d wall=%.1fs -> exit %d' % (
             prop, a.tier, seed, res.evaluations, len(res.nontrivial), res.traces_validated, len(res.mismatches),
